@@ -321,7 +321,10 @@ func runC16(r *Run, rng *rand.Rand, thorough bool) {
 	if thorough {
 		maxPart = 4
 	}
-	for np := 0; np <= 4; np++ {
+	for np := 0; np <= 5; np++ {
+		if np == 5 && !thorough {
+			maxPart = 1
+		}
 		var rec func(cur []int)
 		rec = func(cur []int) {
 			if len(cur) == np {
@@ -345,6 +348,13 @@ func runC16(r *Run, rng *rand.Rand, thorough bool) {
 		gs, _, _ := r.Do("builder.Secrets", true, "builder_secrets", eIntsList(parts))
 		if !strings.HasPrefix(gs, "ok ") {
 			r.Assert(len(parts) > cmts.PartsCap, "builder.Secrets/refusal", "builder-refuses-only-too-many-parts", func() string { return eIntsList(parts) })
+			// what the builder refuses to pack, packed by hand: the parser must refuse it too
+			var packed []*big.Int
+			for _, pt := range parts {
+				packed = append(append(packed, big.NewInt(int64(len(pt)))), pt...)
+			}
+			gp, _, _ := r.Do("commitments.ParseSecrets/oversized", true, "parse_secrets", eInts(packed))
+			r.Assert(gp == "err", "commitments.ParseSecrets/too-many-parts", "parser-rejects-more-parts-than-the-builder-packs", func() string { return eIntsList(parts) + " packed as " + eInts(packed) + " -> " + gp })
 			continue
 		}
 		secrets := strings.TrimPrefix(gs, "ok ")
